@@ -25,18 +25,45 @@ def replay_graph(v, module, cfg, tag, profile, stack_pars, ev, hid_keys=None):
     total = dict(runs=0, steps=0, hidden=0, drifts=0)
     build(profile)
 
-    def one(isp):
-        i, sp = isp
+    out_edges = {}
+    for e in edges:
+        out_edges.setdefault(canon(e["from"]), []).append(e)
+
+    def execute(i, sp, the_runs, suffix=""):
         objs = []
-        for init, steps in runs:
+        for init, steps in the_runs:
             par = dict(L=init["L"], te=init.get("te", False), **sp)
             objs.append(dict(par=par, init=init, steps=[dict(lab=e["lab"], to=e["to"]) for e in steps]))
-        rp = os.path.join(wd, f"runs{i}.jsonl")
-        op = os.path.join(wd, f"out{i}.json")
+        rp = os.path.join(wd, f"runs{i}{suffix}.jsonl")
+        op = os.path.join(wd, f"out{i}{suffix}.json")
         write_jsonl(rp, objs)
         mbt(profile, "layers", rp, op)
         os.remove(rp)
-        return sp, json.load(open(op))
+        return json.load(open(op))
+
+    def one(isp):
+        i, sp = isp
+        o = execute(i, sp, runs)
+        # Hidden-state drift breaks the induction "edge coverage = behaviour coverage": what follows a drifted
+        # step was only exercised from model-conformant states.  Probe every out-edge of the model node right
+        # after each drifted step (fresh replays of the same prefix).
+        sites = o.get("drift_sites", [])
+        if sites and sp.get("level_of_model") != "prop":
+            follow, seen = [], set()
+            for ri, si in sites[:400]:
+                init, steps = runs[ri]
+                node = canon(steps[si]["to"])
+                key = (node, canon(steps[si]["lab"]), canon(steps[si]["from"]))
+                if key in seen:
+                    continue
+                seen.add(key)
+                for e2 in out_edges.get(node, []):
+                    follow.append((init, steps[:si + 1] + [e2]))
+            o2 = execute(i, sp, follow, "f")
+            o["violations"] += o2["violations"]
+            o["runs"] += o2["runs"]; o["steps"] += o2["steps"]
+            o["followup_runs"] = o2["runs"]
+        return sp, o
 
     from concurrent.futures import ThreadPoolExecutor
     with ThreadPoolExecutor(max_workers=8) as ex:
